@@ -89,6 +89,27 @@ pub enum PKind {
     Ne,
 }
 
+/// An atomic constraint over a view.
+#[derive(Clone, Copy, Debug, PartialEq, Eq, Hash, Serialize, Deserialize)]
+pub struct ViewPred {
+    pub term: Term,
+    pub kind: PKind,
+    pub val: i32,
+}
+
+impl ViewPred {
+    pub fn holds(&self, x: i64) -> bool {
+        let t = self.term.scale as i64 * x + self.term.offset as i64;
+        let v = self.val as i64;
+        match self.kind {
+            PKind::Ge => t >= v,
+            PKind::Le => t <= v,
+            PKind::Eq => t == v,
+            PKind::Ne => t != v,
+        }
+    }
+}
+
 /// An atomic constraint over a (plain) variable.
 #[derive(Clone, Copy, Debug, PartialEq, Eq, Hash, Serialize, Deserialize)]
 pub struct Pred {
@@ -180,6 +201,8 @@ pub enum Cons {
     Cumulative { starts: Vec<Term>, durs: Vec<i32>, uses: Vec<i32>, cap: i32, opts: CumOpts },
     /// `Solver::add_clause` over arbitrary predicates
     PredClause { preds: Vec<Pred> },
+    /// `Solver::add_clause` over predicates on views (`predicate!(scale * x + offset >= v)` etc.)
+    ViewClause { atoms: Vec<ViewPred> },
 }
 
 impl Cons {
@@ -206,6 +229,7 @@ impl Cons {
             Cons::BoolLinEq { .. } => "bool_lin_eq",
             Cons::Cumulative { .. } => "cumulative",
             Cons::PredClause { .. } => "pred_clause",
+            Cons::ViewClause { .. } => "view_clause",
         }
     }
     pub fn is_negatable(&self) -> bool {
@@ -224,7 +248,7 @@ impl Cons {
     }
     /// clauses cannot be tagged (documented assertion)
     pub fn is_taggable(&self) -> bool {
-        !matches!(self, Cons::Clause { .. } | Cons::Conj { .. } | Cons::PredClause { .. })
+        !matches!(self, Cons::Clause { .. } | Cons::Conj { .. } | Cons::PredClause { .. } | Cons::ViewClause { .. })
     }
     /// every variable occurrence (with repetitions)
     pub fn vars_multi(&self) -> Vec<usize> {
@@ -270,6 +294,7 @@ impl Cons {
             }
             Cons::Cumulative { starts, .. } => starts.iter().for_each(&mut t),
             Cons::PredClause { preds } => v.extend(preds.iter().map(|p| p.var)),
+            Cons::ViewClause { atoms } => v.extend(atoms.iter().map(|p| p.term.var)),
         }
         v
     }
